@@ -133,10 +133,13 @@ def early(ck):
             cwd = os.getcwd()
             os.chdir(d)
             try:
-                for atomflag in ("-l", "-c", "-s", "-j", "-a"):
+                for atomflag, opts in (("-l", []), ("-c", []), ("-s", []), ("-j", []), ("-a", []),
+                                       # options that name things which do not exist yet: nothing may be created either
+                                       ("-l", ["--tempdir", "newdir"]), ("-c", ["--tempdir=a/b/c"]),
+                                       ("-s", ["--strategy", "minimize-around", "--tempdir", "work"])):
                     lith = Lithium()
                     try:
-                        rc = lith.main([atomflag, os.path.join(d, "yes.py"), path])
+                        rc = lith.main([atomflag] + opts + [os.path.join(d, "yes.py"), path])
                         got = f"returned {rc}"
                     except LithiumError:
                         got = "LithiumError"
